@@ -290,7 +290,9 @@ fn check_trees(c: &RtCase, ctx: &mut Ctx) -> Result<(), Fail> {
     ctx.nontrivial(true);
     let coded = ((c.param * 1024.0) as u64) % 2 == 1;
     ctx.label_if(coded, "trees/zero-centred-coded-features");
-    let (x, x2, q) = if coded { (dm(&zero_centred(&c.x, &c.x)), dm(&zero_centred(&c.x2, &c.x2)), dm(&zero_centred(&c.q, &c.x))) } else { (dm(&c.x), dm(&c.x2), dm(&c.q)) };
+    // (the "different model" is always fitted on the continuous second data set: two coarsely coded data sets can
+    // legitimately produce the very same tree, e.g. one split at 0 with the same leaf labels)
+    let (x, x2, q) = if coded { (dm(&zero_centred(&c.x, &c.x)), dm(&c.x2), dm(&zero_centred(&c.q, &c.x))) } else { (dm(&c.x), dm(&c.x2), dm(&c.q)) };
     let seed = (c.param * 1e6) as u64;
     // optional parameter (max_depth) set in every other case
     let limited = ((c.param * 512.0) as u64) % 2 == 1;
